@@ -151,6 +151,7 @@ def strategy(tier: str):
             'after': st.integers(0, 4), 'types': st.lists(st.integers(0, 2), min_size=1, max_size=2, unique=True).map(sorted)})),
         # the listener has no update_service method (optional; the library only warns)
         'no_update': st.sampled_from([False, False, False, False, True]),
+        'api': st.sampled_from(['listener', 'listener', 'handlers']),
     })
 
 
@@ -253,7 +254,16 @@ class Exec:
 
             with warnings.catch_warnings():
                 warnings.simplefilter('ignore', FutureWarning)
-                br = AsyncServiceBrowser(zc, types if len(types) > 1 else types[0], listener=lst)
+                if self.case.get('api') == 'handlers' and not self.case.get('no_update'):
+                    # the other documented way to be told: a plain callable in handlers=[...] that receives the state change
+                    def on_change(zeroconf: Any, service_type: str, name: str, state_change: Any, _l: Any = lst) -> None:
+                        getattr(_l, {'Added': 'add_service', 'Removed': 'remove_service', 'Updated': 'update_service'}[state_change.name])(
+                            zeroconf, service_type, name)
+
+                    br = AsyncServiceBrowser(zc, types if len(types) > 1 else types[0], handlers=[on_change])
+                    self.stats['browser_with_handlers'] = self.stats.get('browser_with_handlers', 0) + 1
+                else:
+                    br = AsyncServiceBrowser(zc, types if len(types) > 1 else types[0], listener=lst)
             self.browsers.append((br, lst, types))
 
         for tis in self.case['browsers']:
